@@ -1219,9 +1219,20 @@ def oracle_C06(L, K, lines, steps, spec):
 
 
 # ---------------------------------------------------------------- known findings
+def tail_ok(L):
+    """NeededThm.tail_ok (SA L) true L: the lists for which the needed-memory formula is PROVED
+    sufficient (C02_varying_capacity_sufficient) - an overrun there is never the known finding"""
+    S0, b = lay.SA(L), True
+    for i, p in enumerate(L):
+        if i == len(L) - 1:
+            return p.kind == lay.VARYING or b or p.align == S0
+        b = False if p.kind == lay.VARYING else (b or p.align == S0)
+    return b
+
+
 def list_has_tail_after_varying(L):
     last = max((i for i, p in enumerate(L) if p.kind == lay.VARYING), default=None)
-    return last is not None and last != len(L) - 1
+    return last is not None and last != len(L) - 1 and not tail_ok(L)
 
 
 KEYS = {
